@@ -286,7 +286,41 @@ func c19Programs(r *core.Rng, n int) []string {
 	b := func() string { return c19Bounds[r.Intn(len(c19Bounds))] }
 	var out []string
 	for len(out) < n {
-		switch r.Intn(16) {
+		switch r.Intn(18) {
+		case 16:
+			// format strings: every verb with a flag, widths and precisions around the length of the operand
+			verbs := []string{"s", "s", "q", "i", "T", "d", "b", "o", "x", "X", "e", "E", "f", "%", "z", ""}
+			flagsF := []string{"", "", "-", "+", " ", "0", "+0", "#"}
+			nums := []string{"", "", "0", "1", "2", "5", "9", "40", "100", "1000000", "99999999999999999999"}
+			spec := func() string {
+				f := "%" + flagsF[r.Intn(len(flagsF))] + nums[r.Intn(len(nums))]
+				if r.P(60) {
+					f += "." + nums[r.Intn(len(nums))]
+				}
+				return f + verbs[r.Intn(len(verbs))]
+			}
+			ops := []string{"'abc'", "''", "'né'", "NULL", "12", "-1.5", "TRUE", "'2012-02-03 09:18:15'", "c1", "id", b()}
+			var fs, as, ps []string
+			for k := r.Range(1, 2); k > 0; k-- {
+				sp := spec()
+				fs = append(fs, sp)
+				if !strings.HasSuffix(sp, "%") || r.P(10) {
+					o := ops[r.Intn(len(ops))]
+					as = append(as, o)
+					ps = append(ps, map[string]string{"c1": "'c'", "id": "7"}[o]+map[bool]string{true: o, false: ""}[o != "c1" && o != "id"])
+				}
+			}
+			f := core.SQLStr(strings.Join(fs, "|"))
+			if len(as) == 0 {
+				out = append(out, "SELECT FORMAT("+f+") FROM t; PRINTF "+f+";")
+			} else {
+				out = append(out, "SELECT FORMAT("+f+", "+strings.Join(as, ", ")+") FROM t; PRINTF "+f+" USING "+strings.Join(ps, ", ")+";")
+			}
+		case 17:
+			// prepared statements that hold no statement, several statements, or no query — wherever a prepared statement is used
+			body := []string{"''", "'  '", "'-- only a comment'", "'/* c */'", "';'", "'SELECT 1; SELECT 2'", "'VAR @p19 := 1'", "'SELECT ?'", "'COMMIT'", "'SELECT * FROM t WHERE id = ?'", b()}[r.Intn(11)]
+			use := []string{"EXECUTE p19;", "EXECUTE p19 USING 1;", "DECLARE c19 CURSOR FOR p19; OPEN c19; CLOSE c19; DISPOSE CURSOR c19;", "DECLARE c19 CURSOR FOR p19; OPEN c19 USING 1, 2; DISPOSE CURSOR c19;", "DECLARE c19 CURSOR FOR p19; SHOW CURSORS; OPEN c19; VAR @f19; FETCH c19 INTO @f19; DISPOSE CURSOR c19; DISPOSE @f19;", "SHOW STATEMENTS;"}[r.Intn(6)]
+			out = append(out, "PREPARE p19 FROM "+body+"; "+use+" DISPOSE PREPARE p19;")
 		case 0, 1, 2, 3, 4:
 			fn := names[r.Intn(len(names))]
 			if fn == "CALL" {
